@@ -59,6 +59,7 @@ func c20Actions(args []string) error {
 		assets  []byte
 		tc      typeTest
 		isRoute bool
+		twin    string // name of a result that a set_run_result action on the same node saves as well ("" = none)
 	}
 	var jobs []job
 	for _, dir := range []string{"/repo/flows/actions/testdata", "/repo/flows/routers/testdata"} {
@@ -78,7 +79,20 @@ func c20Actions(args []string) error {
 				continue
 			}
 			for i, tc := range tests {
-				jobs = append(jobs, job{fmt.Sprintf("%s#%d", strings.TrimPrefix(fn, "/repo/"), i), assetsJSON, tc, strings.Contains(dir, "routers")})
+				isRoute := strings.Contains(dir, "routers")
+				jobs = append(jobs, job{fmt.Sprintf("%s#%d", strings.TrimPrefix(fn, "/repo/"), i), assetsJSON, tc, isRoute, ""})
+				// the same key saved by two sources on one node: the definition's own result and a preset with another category
+				var named struct {
+					ResultName string `json:"result_name"`
+				}
+				if isRoute {
+					json.Unmarshal(tc.Router, &named)
+				} else {
+					json.Unmarshal(tc.Action, &named)
+				}
+				if named.ResultName != "" {
+					jobs = append(jobs, job{fmt.Sprintf("%s#%d+preset", strings.TrimPrefix(fn, "/repo/"), i), assetsJSON, tc, isRoute, named.ResultName})
+				}
 			}
 		}
 	}
@@ -118,12 +132,19 @@ func c20Actions(args []string) error {
 				var r any
 				json.Unmarshal(j.tc.Router, &r)
 				n0["router"] = r
+				if j.twin != "" {
+					n0["actions"] = []any{presetAction(j.twin)}
+				}
 				aj, _ = json.Marshal(a)
 			} else {
 				if j.tc.InFlowType == "voice" {
 					flowIndex, flowUUID = 1, assets.FlowUUID("7a84463d-d209-4d3e-a0ff-79f977cd7bd0")
 				}
-				aj = test.JSONReplace(j.assets, []string{"flows", fmt.Sprintf("[%d]", flowIndex), "nodes", "[0]", "actions"}, []byte("["+string(j.tc.Action)+"]"))
+				acts := "[" + string(j.tc.Action) + "]"
+				if j.twin != "" {
+					acts = "[" + string(mustJSON(presetAction(j.twin))) + "," + string(j.tc.Action) + "]"
+				}
+				aj = test.JSONReplace(j.assets, []string{"flows", fmt.Sprintf("[%d]", flowIndex), "nodes", "[0]", "actions"}, []byte(acts))
 				if j.tc.Localization != nil {
 					aj = test.JSONReplace(aj, []string{"flows", fmt.Sprintf("[%d]", flowIndex), "localization"}, j.tc.Localization)
 				}
@@ -206,4 +227,8 @@ func c20Actions(args []string) error {
 	iw.w.Flush()
 	fmt.Println(string(mustJSON(M{"lines": iw.n, "evaluations": n, "executed": ran, "errors": errs})))
 	return nil
+}
+
+func presetAction(name string) M {
+	return M{"uuid": "f01d693b-2af2-49fb-9e38-146eb00937e9", "type": "set_run_result", "name": name, "value": "preset", "category": "Preset"}
 }
